@@ -6,8 +6,8 @@ a bounded session (connect, two sends, idle across a heartbeat period, one more 
 the virtual-time loop. First the fault-free session is run to learn its number of loop
 iterations N; then, for every event kind and every iteration k in 1..N, the session is
 re-run with that event injected by a tick hook exactly at iteration k; pairs of events
-(and a slow / lost DisconnectResponse) are sampled with Hypothesis, pairs at most 2 (thorough: 12)
-iterations apart are enumerated. After the session the loop runs 300 more virtual seconds.
+(and a slow / lost DisconnectResponse) are sampled with Hypothesis, pairs at most 2 (thorough: 6)
+iterations apart are enumerated, loss/loss pairs up to 12 (16) apart. After the session the loop runs 300 more virtual seconds.
 
 Oracle (wire log + wrapped `_reconnect` + connection-manager callbacks in one total order):
 (a) `_reconnect` is never active twice at once; (b) after the user CALLED disconnect() no
@@ -41,7 +41,7 @@ RULE = (
     "case = (transport udp|tcp|secure, auto_reconnect, DisconnectResponse behaviour ok|0.5 s late|lost, [(event kind, loop iteration)]); event kinds: hb_drop, hb_err (next 4 ConnectionStateRequests unanswered / E_CONNECTION_ID), "
     "srv_disc_own / srv_disc_foreign (server DisconnectRequest), send_fail (a send started at that iteration, its ACKs dropped on UDP), transport_loss (TCP/secure), user_disc (user calls disconnect()), "
     "connect_drop / connect_err / open_refuse (next connect attempts fail); every kind at every iteration 1..N of the fault-free session (N learned by running it) for all 6 variants, "
-    "pairs of events sampled by Hypothesis (biased to adjacent iterations), all pairs of the instantaneous kinds <= 2 iterations apart enumerated (quick, plus loss x loss/user_disc pairs 3..12 apart; thorough: all kinds, <= 12 apart, x 3 DisconnectResponse behaviours); ConnectionManager: op sequences report/register/unregister/self-unregistering callback vs a dedup model; "
+    "pairs of events sampled by Hypothesis (biased to adjacent iterations), all pairs of the instantaneous kinds <= 2 iterations apart enumerated (quick; thorough: all kinds, <= 6 apart, x 3 DisconnectResponse behaviours), plus loss x loss/user_disc pairs up to 12 (16) apart with auto_reconnect; ConnectionManager: op sequences report/register/unregister/self-unregistering callback vs a dedup model; "
     "non-trivial = the injected event changed the wire log relative to the fault-free session (a fault really happened); distinct by case"
 )
 LEVEL_TEXT = "Each fault kind is injected at every loop iteration of a bounded tunnel session (UDP, TCP, IP Secure; auto-reconnect on/off) in virtual time, pairs of faults are sampled; reconnect concurrency, frames after a user disconnect and the reported connection state are decided from one totally ordered log of wire frames, callbacks and markers."
@@ -571,7 +571,7 @@ def _single_shard(ctx, transport: str, ar: bool, kind: str, lo: int, hi: int) ->
             nt += 1
     ctx.bulk(n, nt, f"single:{kind}")
     ctx.classes[f"{transport}{'+ar' if ar else ''}"] += n
-    if lo == 1:
+    if lo == 1 and kind == "user_disc" and ar:
         ctx.sample({"transport": transport, "auto_reconnect": ar, "kind": kind, "ticks": f"1..{N}"})
 
 
@@ -614,7 +614,7 @@ def _pair_oracle(ctx, case) -> None:
         repr(sorted(case.items())),
         nontrivial=bool(r and r[1]),
         cls=["pair", f"{case['transport']}{'+ar' if case['auto_reconnect'] else ''}", "disc_resp:" + (case["disc_resp"] if isinstance(case["disc_resp"], str) else "late")],
-        sample={"pair": kinds, "ticks": [e[1] for e in case["events"]], "transport": case["transport"]},
+        sample={"pair": kinds, "ticks": [e[1] for e in case["events"]], "transport": case["transport"], "disc_resp": case["disc_resp"]} if len(ctx.samples) < 2 else None,
     )
 
 
@@ -731,7 +731,7 @@ cm_cases = st.fixed_dictionaries({"cm": st.just(True), "loop": st.booleans(), "o
 def _cm_oracle(ctx, case) -> None:
     cm_check(ctx, case)
     ops = [o[0] for o in case["ops"]]
-    ctx.case(repr(case), nontrivial=ops.count("report") >= 2 and ("reg" in ops or "reg1" in ops), cls=["cm", "cm:loop-registered" if case["loop"] else "cm:direct"], sample=case if len(ops) > 8 else None)
+    ctx.case(repr(case), nontrivial=ops.count("report") >= 2 and ("reg" in ops or "reg1" in ops), cls=["cm", "cm:loop-registered" if case["loop"] else "cm:direct"], sample=case if len(ops) > 8 and ctx.shard == 0 and len(ctx.samples) < 3 else None)
 
 
 def _cm_shard(ctx, n: int) -> None:
@@ -760,21 +760,20 @@ def run(ctx) -> None:
     ctx.notes["fault_free_session_iterations"] = ns
     near = INSTANT if ctx.quick else KINDS_ALL
     adj = [
-        (t, ar, ka, kb, ctx.n(2, 12), dr)
+        (t, ar, ka, kb, ctx.n(2, 6), dr)
         for t, ar in VARIANTS
         for ka in near
         for kb in near
         for dr in (["ok"] if ctx.quick else ["ok", ["delay", 0.5], "drop"])
         if ka in kinds_for(t) and kb in kinds_for(t)
     ]
-    if ctx.quick:
-        # second event inside / at the end of the reconnect started by the first one (a reconnect takes 4..12 iterations)
-        losses = ["srv_disc_own", "srv_disc_foreign", "transport_loss"]
-        adj += [(t, True, ka, kb, 12, "ok", 3) for t in ("udp", "tcp", "secure") for ka in losses for kb in [*losses, "user_disc"] if ka in kinds_for(t) and kb in kinds_for(t)]
+    # second event inside / at the end of the reconnect started by the first one (a reconnect takes 4..12 iterations)
+    losses = ["srv_disc_own", "transport_loss"] if ctx.quick else ["srv_disc_own", "srv_disc_foreign", "transport_loss"]
+    adj += [(t, True, ka, kb, ctx.n(12, 16), "ok", ctx.n(3, 7)) for t in ("udp", "tcp", "secure") for ka in losses for kb in [*losses, "user_disc"] if ka in kinds_for(t) and kb in kinds_for(t)]
     parallel(ctx, _adjacent_shard, adj)
-    ctx.notes["adjacent_pairs_enumerated"] = {"kinds": near, "max_iterations_apart": ctx.n(2, 12), "quick_also": "loss x loss/user_disc pairs 3..12 iterations apart with auto_reconnect"}
-    parallel(ctx, _pair_shard, [(ctx.n(120, 3000),)] * 16)
+    ctx.notes["adjacent_pairs_enumerated"] = {"kinds": near, "max_iterations_apart": ctx.n(2, 6), "also": "loss x loss/user_disc pairs up to %d iterations apart with auto_reconnect" % ctx.n(12, 16)}
     parallel(ctx, _cm_shard, [(ctx.n(300, 5000),)] * 4)
+    parallel(ctx, _pair_shard, [(ctx.n(120, 2500),)] * 16)
     ctx.exhaustive = False
     ctx.notes["single_events_every_iteration"] = True
 
